@@ -122,13 +122,22 @@ enum RollState {
     },
 }
 impl RollState {
-    fn new(criterion: Criterion, append: bool, path: &Path) -> Result<RollState, std::io::Error> {
+    fn new(
+        criterion: Criterion,
+        append: bool,
+        is_new_file: bool,
+        path: &Path,
+    ) -> Result<RollState, std::io::Error> {
         let current_size = if append {
             std::fs::metadata(path)?.len()
         } else {
             0
         };
-        let created_at = get_creation_timestamp(path);
+        let created_at = if is_new_file {
+            creation_timestamp_of_new_file(path)
+        } else {
+            get_creation_timestamp(path)
+        };
 
         Ok(match criterion {
             Criterion::Age(age) => RollState::Age { age, created_at },
@@ -226,21 +235,26 @@ impl RollState {
     }
 
     // takes size and start time from the file as it is now
-    fn sync_with_file(&mut self, path: &Path) {
+    fn sync_with_file(&mut self, path: &Path, is_new_file: bool) {
         let size = std::fs::metadata(path).map_or(0, |md| md.len());
+        let start = if is_new_file {
+            creation_timestamp_of_new_file(path)
+        } else {
+            get_creation_timestamp(path)
+        };
         match self {
             RollState::Size { current_size, .. } => {
                 *current_size = size;
             }
             RollState::Age { created_at, .. } => {
-                *created_at = get_creation_timestamp(path);
+                *created_at = start;
             }
             RollState::AgeOrSize {
                 created_at,
                 current_size,
                 ..
             } => {
-                *created_at = get_creation_timestamp(path);
+                *created_at = start;
                 *current_size = size;
             }
         }
@@ -451,8 +465,15 @@ impl State {
                 (NamingState::NumbersDirect(idx), numbers::number_infix(idx))
             }
         };
+        let is_new_file = !self.config.append
+            || !self.config.file_spec.as_pathbuf(Some(&infix)).exists();
         let (write, path) = open_log_file(&self.config, Some(&infix))?;
-        let roll_state = RollState::new(rotate_config.criterion, self.config.append, &path)?;
+        let roll_state = RollState::new(
+            rotate_config.criterion,
+            self.config.append,
+            is_new_file,
+            &path,
+        )?;
         let o_cleanup_thread_handle = if rotate_config.cleanup.do_cleanup() {
             // the output file is open: a problem with old files must not keep us from logging
             list_and_cleanup::remove_or_compress_too_old_logfiles(
@@ -604,6 +625,7 @@ impl State {
         if let Inner::Active(ref mut o_rotation_state, ref mut file, ref p_path) = self.inner {
             #[cfg(feature = "verif_hooks")]
             crate::verif_hooks::point("reopen", Some(p_path))?;
+            let is_new_file = !p_path.exists();
             match OpenOptions::new().create(true).append(true).open(p_path) {
                 Ok(f) => {
                     // proved to work on standard windows, linux, mac
@@ -625,14 +647,20 @@ impl State {
             // the file at this path can be another one than before (moved away by an external
             // tool): its size and its start time count from now on
             if let Some(ref mut rotation_state) = o_rotation_state {
-                rotation_state.roll_state.sync_with_file(p_path);
+                rotation_state
+                    .roll_state
+                    .sync_with_file(p_path, is_new_file);
                 if let NamingState::Timestamps {
                     current_timestamp: ref mut ts,
                     the_current_infix: Some(_),
                     ..
                 } = rotation_state.naming_state
                 {
-                    *ts = get_creation_timestamp(p_path);
+                    *ts = if is_new_file {
+                        creation_timestamp_of_new_file(p_path)
+                    } else {
+                        get_creation_timestamp(p_path)
+                    };
                 }
             }
         }
